@@ -187,11 +187,9 @@ def run(ctx):
             cases.append(dict(s, **r, m=m, tol=tol, stream="eigvec_rhs"))
     obs = [G.run_impl(c) for c in cases]
     stab = [G.stability(c, square_H=sq) for c in cases]
-    # the model transcribes the pinned tree's stopping test and padding: once a probe says one of those defects is gone,
-    # its region is left to the oracle alone
+    # (max_iters > n stays in the comparison on a repaired tree too: the model with gmres_square_H cleared keeps the
+    # (m+1) x m buffer and masks per column, which makes zero-padded columns inert)
     def modelled(c):
-        if not flags.get("arnoldi_padding", True) and c["m"] > c["n"]:
-            return False
         if any(G.overrun_columns(c)[0]):      # steps taken after a column's breakdown work on rounding noise: not comparable entry-wise
             return False
         return True
